@@ -27,7 +27,8 @@ sys.dont_write_bytecode = True
 from engine.common import AnalysisError, Report  # noqa: E402
 from engine.srcindex import SourceIndex  # noqa: E402
 
-ALL = ['C01', 'C02', 'C03', 'C04', 'C05', 'C06', 'C07', 'C08', 'C10', 'C11',
+ALL = ['C01', 'C02', 'C03', 'C04', 'C05', 'C06', 'C07', 'C08', 'C09', 'C10',
+       'C11',
        'C12', 'C13', 'C14', 'C15', 'C16', 'C18', 'C19', 'C20']
 
 
